@@ -581,6 +581,102 @@ def check_token_level_roundtrip(ctx, model):
     ctx.floor('token_level_rows', 40)
 
 
+# ---- names kept as raw token text are printed as that text --------------------------------------------------------------------------------------------
+
+RAW_IDS = ['col1', 'a$b', '`my col`', '`a.b`', 'status', 'Model']
+
+
+def _holds_raw(v, text, depth=0):
+    """the text sits in the value as it is (attribute, list element, dict key or value), not decoded into an Identifier"""
+    from ..interp import Obj
+    if depth > 4:
+        return False
+    if isinstance(v, str):
+        return v == text
+    if isinstance(v, dict):
+        return any(_holds_raw(k, text, depth + 1) or _holds_raw(x, text, depth + 1) for k, x in v.items())
+    if isinstance(v, (list, tuple)):
+        return any(_holds_raw(x, text, depth + 1) for x in v)
+    if isinstance(v, Obj) and v.kind != 'Identifier':
+        return any(_holds_raw(x, text, depth + 1) for k, x in v.attrs.items() if not k.startswith('_'))
+    return False
+
+
+def check_raw_text_fields(ctx, model):
+    """Some grammar actions keep a name as the raw text of its `id` token (back-quotes included) - the SET columns of UPDATE, column lists ...  Where that text ends
+    up is found by interpreting the actions on sample names (through up to three levels of productions); the node's printer, interpreted, must then write
+    exactly that text as one token: an encoder applied to text that already is source text quotes it twice, and the statement re-parses to another name."""
+    from ..interp import Interp, Obj, Raised, Env
+    from ..grammar import prod_record
+    from ..lexmodel import spelling
+    from ..actions import kinds_for
+    ast_files = tuple(sorted(f for f in ctx.src.py_files('mindsdb_sql/parser') if '/ast/' in f or ('/dialects/mindsdb/' in f and not f.endswith(('parser.py', 'lexer.py')))))
+    tok_stubs = C04.lexer_token_stubs(ctx)
+    nnodes = 0
+    for d in DIALECTS:
+        g = load_dialect(ctx.src, d)
+        m = master_for(g.lexer)
+        ak = kinds_for(ctx.src, d)
+
+        def fresh():
+            return Interp.for_file(ctx.src, g.file, {}, dict(tok_stubs), also=ast_files)
+
+        def default(sym):
+            if sym in g.tokens:
+                return spelling(g.lexer, sym) or sym
+            if sym == 'identifier':
+                return Obj('Identifier', parts=['t'], alias=None, parentheses=False)
+            k = ak.nt.get(sym)
+            if k is not None and 'Constant' in k.kinds:
+                return Obj('Constant', value=1, alias=None, parentheses=False)
+            if sym in ('if_not_exists_or_empty', 'replace_or_empty', 'if_exists_or_empty'):
+                return False
+            return None
+        for text in RAW_IDS:
+            carriers = {'id': [text]}
+            for level in range(3):
+                new = {}
+                for p_ in g.productions[1:]:
+                    if p_.func is None or not any(s_ in carriers for s_ in p_.rhs) or p_.name == 'id':
+                        continue
+                    pos = next(i for i, s_ in enumerate(p_.rhs) if s_ in carriers)
+                    for cv in carriers[p_.rhs[pos]][:2]:
+                        values = [cv if i == pos else default(s_) for i, s_ in enumerate(p_.rhs)]
+                        try:
+                            res = fresh().call_function(p_.func, [Obj('Parser'), prod_record(p_, values)], {}, Env())
+                        except (Raised, AnalysisError, TypeError, ValueError, AttributeError, KeyError, IndexError):
+                            continue
+                        if not _holds_raw(res, text):
+                            continue
+                        if isinstance(res, Obj):
+                            pr = fresh().methods.get(res.kind, {}).get('to_string')
+                            if pr is None:
+                                continue
+                            try:
+                                out = fresh().call_function(pr, [res], {}, Env())
+                            except (Raised, AnalysisError, TypeError, ValueError, AttributeError, KeyError, IndexError):
+                                continue
+                            if not isinstance(out, str):
+                                continue
+                            nnodes += 1
+                            try:
+                                words = [txt for _, txt in m.tokenize(out)]          # the token texts the dialect's own lexer sees
+                            except ValueError:
+                                words = []
+                            ok = text in words
+                            ctx.ob('C01.raw-text-kept', f'{d}:[{p_}]:{text}', ok,
+                                   f'{d}: `{p_}` keeps the name {text!r} as the raw text of its token; the {res.kind} node prints `{out[:100]}`, where that text does not '
+                                   f'stand as it is: the printed statement re-parses to another name (the printer encoded text that already was source text)',
+                                   file=g.file, line=p_.line, witness=f'update t set {text} = 1')
+                        else:
+                            new.setdefault(p_.name, []).append(res)
+                if not new:
+                    break
+                carriers = new
+    ctx.setcount('raw_text_nodes', nnodes)
+    ctx.floor('raw_text_nodes', 12)
+
+
 # ---- stored query text is a fixpoint of print / re-parse ------------------------------------------------------------------------------------------
 
 def check_stored_text_stable(ctx):
@@ -676,6 +772,7 @@ def run(ctx):
     check_raw_interpolation(ctx, model)
     check_leaves(ctx, model)
     check_token_level_roundtrip(ctx, model)
+    check_raw_text_fields(ctx, model)
     check_stored_text_stable(ctx)
     # codec (shared with C04): string literals and identifiers
     sub_findings = []
